@@ -556,7 +556,14 @@ class CallMixin:
             if self.cur is not None:
                 tok = self.cur.extra.get("call_tokens", {}).get("%s#%d" % (name, n))
                 if tok:
-                    g = self.spec_eval(s, tok, self.root_fid, s.heap0, s.entry_frame, {})
+                    # evaluated in the callee's parameter frame on top of the caller's frame: the clause can speak about what is being
+                    # passed by the callee's parameter names (stable) instead of the caller's local names (free to be renamed)
+                    saved_parent = s.frames[fid]["$parent"]
+                    s.frames[fid]["$parent"] = self.root_fid
+                    try:
+                        g = self.spec_eval(s, tok, fid, s.heap0, s.entry_frame, {})
+                    finally:
+                        s.frames[fid]["$parent"] = saved_parent
                     self.emit(s, "token@%s#%d" % (name, n), g, "token", c.props)
             # preconditions
             for label, src, props in c.requires:
